@@ -120,7 +120,7 @@ package task
 //@   site (*Executor).GetTask#1 ghost anyInternal := anyInternal || (result.1 == nil && result.0.Internal)
 //@   site (*Executor).GetTask#1 ghost nVetted := nVetted + 1
 //@   loop 1 invariant !anyInternal && nVetted == $i                                                         [C13]
-//@   loop 3 invariant tok == 0 && !anyInternal && nVetted == len(calls)                                     [C13]
+//@   loop 6 invariant tok == 0 && !anyInternal && nVetted == len(calls)                                     [C13]
 //@   site (*Executor).RunTask#0 requires !anyInternal && nVetted == len(calls)                              [C13]
 //@   site (*Group).Go#0 requires !anyInternal && nVetted == len(calls)                                      [C13]
 //@   site (*Executor).watchTasks#0 requires !anyInternal && nVetted == len(calls)                           [C13]
